@@ -9,7 +9,9 @@ meaning changes: every consumer must treat the result like the original.
 import random
 
 
-def rebuild_with_keyword_calls(c, seed=0):
+def rebuild_with_keyword_calls(c, seed=0, raw=False):
+    """raw=True: the statements are made with the GateStatement constructor itself, which takes "a map from gate
+    parameter names to the values" -- in whatever order the caller's dictionary lists them."""
     from jaqalpaq.core import Circuit, Macro, BlockStatement, LoopStatement, GateStatement
 
     rng = random.Random(seed)
@@ -25,6 +27,8 @@ def rebuild_with_keyword_calls(c, seed=0):
             stats["keyword-calls"] += 1
             if [k for k, _ in order] != [k for k, _ in items]:
                 stats["reordered"] += 1
+            if raw:
+                return GateStatement(s.gate_def, dict(order))
             return s.gate_def(**dict(order))
         if isinstance(s, LoopStatement):
             return LoopStatement(s.iterations, stmt(s.statements))
